@@ -3,11 +3,24 @@
  *   mode helpers : random_kfold_group_generator + kfold_group_train_test_split called directly, x[i] = i
  *   mode cv      : BootstrapRandomGroupsCV / LeaveOneOut / KFoldCV for PLS, MLR, LDA on random data
  *   mode labels  : KFoldCV on TLC-generated label vectors (one per line: n l1 .. ln)
+ *   mode cases   : TLC-generated case chains (spec/CvCases.tla), one case per line:
+ *                  id chain scheme algo n p ny nlv xs ys k groups iters nth dcls sens nproc dseed nlab l1 .. l_nlab
+ *                  chain = 0 starts a new PROCESS; chain = 1 runs in the process of the previous line INTO THE SAME, ALREADY SIZED
+ *                  output matrices (class K7).  dcls = data class (K3/K4/K5/K8), sens = 1: own-response test for EVERY object.
  * One block per run:  Reset ; Run{...} ; Create/Join/Merge* ; (Groups ; Split*)* ; Pred* ; Resid* ; End
  * Every run executes in a forked child (watchdog + iteration budget): a hang or crash is a reported case.
  */
 #include "scientific.h"
 #include "verif_rt.h"
+#if defined(__has_feature)
+#  if __has_feature(address_sanitizer)
+#    include <sanitizer/asan_interface.h>
+#    define OBJ_FREED(p) (__asan_address_is_poisoned((const void*)(p)) ? 1 : 0)
+#  endif
+#endif
+#ifndef OBJ_FREED
+#  define OBJ_FREED(p) 0      /* without the sanitizer a freed output object cannot be told from a live one */
+#endif
 
 /* ---------------- hook H5 recorder ---------------- */
 #define MAXW 64
@@ -95,7 +108,8 @@ static void emit_groups_and_splits(wrec *w){
 enum { A_PLS = 0, A_MLR = 1, A_LDA = 2 };
 static const char *ANAME[3] = {"PLS", "MLR", "LDA"};
 static AlgorithmType ATYPE[3] = {_PLS_, _MLR_, _LDA_};
-typedef struct { int algo, n, p, ny, nlv, xs, ys; matrix *x, *y; } prob;
+typedef struct { int algo, n, p, ny, nlv, xs, ys, k, dcls, mag; matrix *x, *y; } prob;
+typedef struct { int id, hist, reuse, sensall, nproc, lost; matrix *pred, *res; } copts;   /* pred/res != NULL: outputs supplied by the caller (history) */
 
 static void rows_of(matrix *src, const int *ids, int n, matrix *dst){
   ResizeMatrix(dst, n, src->col);
@@ -111,7 +125,8 @@ static void fit_predict(prob *P, matrix *y, const int *train, int ntr, const int
          LDAPrediction(xs, m, pf, pr, mn, out); DelMatrix(&pf); DelMatrix(&pr); DelMatrix(&mn); DelLDAModel(&m); }
   DelMatrix(&xt); DelMatrix(&yt); DelMatrix(&xs);
 }
-static double relerr(double a, double b){ double d = fabs(a - b), s = fabs(a) > fabs(b) ? fabs(a) : fabs(b); if(!vfinite(a) || !vfinite(b)) return 1e9; return d / (s > 1.0 ? s : 1.0); }
+static double relfloor = 1.0;   /* 1 for data of magnitude >= 1 (as always), 10^mag for the small-magnitude class K4 (never looser) */
+static double relerr(double a, double b){ double d = fabs(a - b), s = fabs(a) > fabs(b) ? fabs(a) : fabs(b); if(!vfinite(a) || !vfinite(b)) return 1e9; return d / (s > relfloor ? s : relfloor); }
 
 typedef struct { int scheme; /* 0 boot 1 loo 2 kfold */ int groups, iters, nth; int lab[MAXN]; int has_lab; } cvcfg;
 static const char *SNAME[3] = {"boot", "loo", "kfold"};
@@ -123,24 +138,33 @@ static void run_cv(prob *P, matrix *y, cvcfg *C, matrix *pred, matrix *res){
   else { uivector *g; NewUIVector(&g, P->n); for(int i = 0; i < P->n; i++) g->data[i] = C->lab[i]; KFoldCV(&in, g, ATYPE[P->algo], pred, res, C->nth, NULL, 0); DelUIVector(&g); }
 }
 
-typedef struct { prob *P; cvcfg *C; vrng *R; } childarg;
+typedef struct { prob *P; cvcfg *C; vrng *R; copts *O; } childarg;
 
-static int child_cv(void *a_){
-  childarg *A = (childarg*)a_; prob *P = A->P; cvcfg *C = A->C;
+/* one recorded run: Run ; Create/Join/Merge* ; (Groups ; Split*)* ; Pred* ; Resid* ; ResOnly? ; End   (the Reset was written by the caller) */
+static void do_case(prob *P, cvcfg *C, vrng *R, copts *O){
   vrt_install_iter_budget(200000, 0);
-  vrt_force_nproc(1);
+  vrt_force_nproc(O->nproc > 0 ? O->nproc : 1);
   libsci_verif_cv = cv_cb; nW = 0;
+  relfloor = P->mag < 0 ? pow(10.0, P->mag) : 1.0;
+  double yscale = pow(10.0, P->mag);
   int scol = P->algo == A_PLS ? P->ny * P->nlv : P->ny;
   int total = C->scheme == 0 ? C->iters : (C->scheme == 1 ? P->n : 0);
   if(C->scheme == 2){ int mx = 0; for(int i = 0; i < P->n; i++) if(C->lab[i] > mx) mx = C->lab[i]; total = mx + 1; }
   { static char buf[4096]; int p = 0;
-    p += snprintf(buf + p, sizeof(buf) - p, "{\"e\":\"Run\",\"scheme\":\"%s\",\"algo\":\"%s\",\"n\":%d,\"p\":%d,\"ny\":%d,\"nlv\":%d,\"xs\":%d,\"ys\":%d,\"groups\":%d,\"nth\":%d,\"total\":%d,\"scol\":%d,\"lab\":",
-                  SNAME[C->scheme], ANAME[P->algo], P->n, P->p, P->ny, P->algo == A_PLS ? P->nlv : 1, P->xs, P->ys, C->groups, C->nth, total, scol);
+    p += snprintf(buf + p, sizeof(buf) - p, "{\"e\":\"Run\",\"scheme\":\"%s\",\"algo\":\"%s\",\"n\":%d,\"p\":%d,\"ny\":%d,\"nlv\":%d,\"xs\":%d,\"ys\":%d,\"groups\":%d,\"nth\":%d,\"total\":%d,\"scol\":%d,"
+                  "\"iters\":%d,\"k\":%d,\"dcls\":%d,\"mag\":%d,\"sensall\":%d,\"hist\":%d,\"reuse\":%d,\"nproc\":%d,\"case\":%d,\"lab\":",
+                  SNAME[C->scheme], ANAME[P->algo], P->n, P->p, P->ny, P->algo == A_PLS ? P->nlv : 1, P->xs, P->ys, C->groups, C->nth, total, scol,
+                  C->scheme == 0 ? C->iters : 1, P->algo == A_LDA ? P->k : 0, P->dcls, P->mag, O->sensall, O->hist, O->reuse, O->nproc > 0 ? O->nproc : 1, O->id);
     emit_intlist(buf, &p, sizeof(buf), C->lab, C->scheme == 2 ? P->n : 0);
     p += snprintf(buf + p, sizeof(buf) - p, "}"); VRT_EMIT("%s", buf); }
-  matrix *pred, *res; initMatrix(&pred); initMatrix(&res);
+  matrix *pred, *res; int own = O->pred == NULL;
+  if(own){ initMatrix(&pred); initMatrix(&res); } else { pred = O->pred; res = O->res; }
   run_cv(P, P->y, C, pred, res);
   libsci_verif_cv = NULL;
+  /* the caller's output objects must have survived the call (an output sized for ANOTHER shape has to be resized in place) */
+  { int pf = OBJ_FREED(pred), rf = OBJ_FREED(res);
+    VRT_EMIT("{\"e\":\"Out\",\"pred_freed\":%d,\"res_freed\":%d}", pf, rf);
+    if(pf || rf){ VRT_EMIT("{\"e\":\"End\",\"workers\":%d,\"shape\":0}", nW); O->lost = 1; return; } }
   /* folds as the code really made them */
   int nworkers = nW;
   for(int i = 0; i < nworkers; i++) if(W[i].have_groups) emit_groups_and_splits(&W[i]);
@@ -158,50 +182,66 @@ static int child_cv(void *a_){
         DelMatrix(&o); } }
   }
   int passes = C->scheme == 0 ? nworkers : 1;
-  /* out-of-sample test: change only y[i], re-run with the same configuration (single thread => same RNG streams) */
-  int ntest_i = 0, tests[3]; long sens[3] = {0, 0, 0};
-  if(C->nth == 1){
-    for(int t = 0; t < 3 && t < P->n; t++){ int i = (int)vr_int(A->R, 0, P->n - 1); tests[ntest_i] = i;
+  int shape_ok = ((int)pred->row == P->n && (int)pred->col == scol) ? 1 : 0;
+  /* out-of-sample test: change only y[i], re-run with the same configuration.  Bootstrap: single thread only (same RNG streams; with more
+   * threads the workers share the generator word - property C06); LeaveOneOut / KFoldCV draw nothing, so every thread count qualifies.
+   * sens[i]: -1 not measured, -2 LDA label change not admissible for this object, else the change of object i's prediction in 1e-12 units */
+  long sens[MAXN]; for(int i = 0; i < MAXN; i++) sens[i] = -1;
+  int eligible = (C->nth == 1 || C->scheme != 0);
+  if(eligible){
+    int ntests = O->sensall ? P->n : (P->n < 3 ? P->n : 3);
+    for(int t = 0; t < ntests; t++){ int i = O->sensall ? t : (int)vr_int(R, 0, P->n - 1);
       matrix *y2; initMatrix(&y2); MatrixCopy(P->y, &y2);
       if(P->algo == A_LDA){ /* another label that still leaves >= 3 members in i's class */
         int li = (int)P->y->data[i][0], members = 0, mx = 0; for(int j = 0; j < P->n; j++){ if((int)P->y->data[j][0] == li) members++; if((int)P->y->data[j][0] > mx) mx = (int)P->y->data[j][0]; }
-        if(members < 5 || mx < 1){ DelMatrix(&y2); continue; }
+        if(members < 5 || mx < 1){ DelMatrix(&y2); if(sens[i] == -1) sens[i] = -2; continue; }
         y2->data[i][0] = (double)((li + 1) % (mx + 1)); }
-      else for(int c = 0; c < P->ny; c++) y2->data[i][c] += 1.0 + c;
+      else for(int c = 0; c < P->ny; c++) y2->data[i][c] += (1.0 + c) * yscale;
       matrix *p2; initMatrix(&p2);
       libsci_verif_cv = NULL; run_cv(P, y2, C, p2, NULL);
       long worst = 0; for(int c = 0; c < scol && c < (int)p2->col && c < (int)pred->col; c++){ long q = vq12(relerr(pred->data[i][c], p2->data[i][c])); if(q > worst) worst = q; }
       if(p2->row != pred->row || p2->col != pred->col) worst = VQ_MAX;
-      sens[ntest_i] = worst; ntest_i++; DelMatrix(&p2); DelMatrix(&y2); }
+      if(sens[i] < 0 || worst > sens[i]) sens[i] = worst;
+      DelMatrix(&p2); DelMatrix(&y2); }
   }
-  int shape_ok = ((int)pred->row == P->n && (int)pred->col == scol) ? 1 : 0;
   for(int i = 0; i < P->n; i++){
     long worst = 0; int fin = 1;
     for(int c = 0; c < scol; c++){
       double got = (shape_ok ? pred->data[i][c] : NAN), want = cnt[i] ? expct->data[i][c] / cnt[i] : NAN;
       if(!vfinite(got)) fin = 0;
       long q = vq12(relerr(got, want)); if(q > worst) worst = q; }
-    long ss = -1; for(int t = 0; t < ntest_i; t++) if(tests[t] == i) ss = sens[t];
-    VRT_EMIT("{\"e\":\"Pred\",\"i\":%d,\"refit\":%ld,\"sens\":%ld,\"finite\":%d,\"cnt\":%d,\"passes\":%d}", i, worst, ss, fin, cnt[i], passes);
+    VRT_EMIT("{\"e\":\"Pred\",\"i\":%d,\"refit\":%ld,\"sens\":%ld,\"finite\":%d,\"cnt\":%d,\"passes\":%d}", i, worst, sens[i], fin, cnt[i], passes);
   }
   /* residuals = prediction - matching response column (column c <-> response c %% ny, LV-major layout) */
   int rshape = ((int)res->row == P->n && (int)res->col == scol) ? 1 : 0;
   for(int c = 0; c < scol; c++){
     long worst = 0;
     for(int i = 0; i < P->n; i++){ double want = (shape_ok ? pred->data[i][c] : NAN) - P->y->data[i][c % P->ny]; double got = rshape ? res->data[i][c] : NAN;
-      double d = fabs(got - want), s = fabs(want) > 1.0 ? fabs(want) : 1.0; long q = vfinite(got) && vfinite(want) ? vq12(d / s) : VQ_MAX; if(q > worst) worst = q; }
+      double d = fabs(got - want), s = fabs(want) > relfloor ? fabs(want) : relfloor; long q = vfinite(got) && vfinite(want) ? vq12(d / s) : VQ_MAX; if(q > worst) worst = q; }
     VRT_EMIT("{\"e\":\"Resid\",\"col\":%d,\"resp\":%d,\"lv\":%d,\"err\":%ld}", c, c % P->ny, c / P->ny + 1, worst);
   }
+  /* the residual-only call (predicted_y = NULL): the residuals must still be prediction minus the matching response column */
+  if(eligible){
+    matrix *r2; initMatrix(&r2); run_cv(P, P->y, C, NULL, r2);
+    int r2shape = ((int)r2->row == P->n && (int)r2->col == scol) ? 1 : 0; long worst = 0;
+    for(int c = 0; c < scol; c++) for(int i = 0; i < P->n; i++){ double want = (shape_ok ? pred->data[i][c] : NAN) - P->y->data[i][c % P->ny]; double got = r2shape ? r2->data[i][c] : NAN;
+      double d = fabs(got - want), s = fabs(want) > relfloor ? fabs(want) : relfloor; long q = vfinite(got) && vfinite(want) ? vq12(d / s) : VQ_MAX; if(q > worst) worst = q; }
+    VRT_EMIT("{\"e\":\"ResOnly\",\"err\":%ld,\"shape\":%d}", worst, r2shape);
+    DelMatrix(&r2);
+  }
   VRT_EMIT("{\"e\":\"End\",\"workers\":%d,\"shape\":%d}", nworkers, shape_ok);
-  DelMatrix(&expct); DelMatrix(&pred); DelMatrix(&res);
-  return 0;
+  DelMatrix(&expct); if(own){ DelMatrix(&pred); DelMatrix(&res); }
 }
+static int child_cv(void *a_){ childarg *A = (childarg*)a_; do_case(A->P, A->C, A->R, A->O); return 0; }
 
-static void gen_problem(prob *P, vrng *R, int algo, int n, int p, int ny, int nlv){
-  P->algo = algo; P->n = n; P->p = p; P->ny = ny; P->nlv = nlv; P->xs = (int)vr_int(R, 0, 1); P->ys = 0;
+/* xs_ / k_ < 0: drawn (the random "cv" mode); dcls: 0 plain, 1 K3 common offset 1e6, 2 K4 whole input x 1e-6, 3 K4 x 1e6, 4 K8 duplicate rows,
+ * 5 K5/K8 a constant column 0.1 among informative ones, 6 K8 a column that is constant inside the training set of object 0's fold, 7 K8 constant response */
+static void gen_problem_ex(prob *P, vrng *R, int algo, int n, int p, int ny, int nlv, int xs_, int ys_, int k_, int dcls){
+  P->algo = algo; P->n = n; P->p = p; P->ny = ny; P->nlv = nlv; P->xs = xs_ >= 0 ? xs_ : (int)vr_int(R, 0, 1); P->ys = algo == A_PLS ? ys_ : 0; P->k = 0; P->dcls = dcls; P->mag = 0;
   NewMatrix(&P->x, n, p); NewMatrix(&P->y, n, ny);
   if(algo == A_LDA){
-    int k = 2 + (int)vr_int(R, 0, 1); if(n < 18) k = 2;
+    int k = k_ >= 2 ? k_ : 2 + (int)vr_int(R, 0, 1); if(k_ < 2 && n < 18) k = 2;
+    P->k = k;
     for(int i = 0; i < n; i++){ int c = i % k; P->y->data[i][0] = c; for(int j = 0; j < p; j++) P->x->data[i][j] = vr_norm(R) + 6.0 * c * ((j % 2) ? 1 : -1) + 3.0 * c; }
     /* shuffle rows so that classes are not contiguous */
     for(int i = n - 1; i > 0; i--){ int j = (int)vr_int(R, 0, i); double *t = P->x->data[i]; P->x->data[i] = P->x->data[j]; P->x->data[j] = t; t = P->y->data[i]; P->y->data[i] = P->y->data[j]; P->y->data[j] = t; }
@@ -213,35 +253,81 @@ static void gen_problem(prob *P, vrng *R, int algo, int n, int p, int ny, int nl
     for(int j = 0; j < p; j++) P->x->data[i][j] = vr_norm(R) * (1.0 + j) + 2.0 * j;
     for(int c = 0; c < ny; c++){ double s = 5.0 * c; for(int j = 0; j < p; j++) s += P->x->data[i][j] * B[j][c]; P->y->data[i][c] = s + 0.3 * vr_norm(R); }
   }
+  if(dcls == 1){ for(int i = 0; i < n; i++){ for(int j = 0; j < p; j++) P->x->data[i][j] += 1e6; for(int c = 0; c < ny; c++) P->y->data[i][c] += 1e6; } }
+  if(dcls == 2 || dcls == 3){ double f = dcls == 2 ? 1e-6 : 1e6; P->mag = dcls == 2 ? -6 : 6;
+    for(int i = 0; i < n; i++){ for(int j = 0; j < p; j++) P->x->data[i][j] *= f; for(int c = 0; c < ny; c++) P->y->data[i][c] *= f; } }
+  if(dcls == 4){ for(int i = 1; i < n && i < 4; i += 2){ for(int j = 0; j < p; j++) P->x->data[i][j] = P->x->data[i - 1][j]; for(int c = 0; c < ny; c++) P->y->data[i][c] = P->y->data[i - 1][c]; } }
+  if(dcls == 5 && p >= 2){ for(int i = 0; i < n; i++) P->x->data[i][p - 1] = 0.1; }
+  if(dcls == 6 && p >= 2){ for(int i = 0; i < n; i++) P->x->data[i][p - 1] = i == 0 ? 1.0 : 0.0; }
+  if(dcls == 7 && ny >= 2){ for(int i = 0; i < n; i++) P->y->data[i][ny - 1] = 1.0 / 3.0; }
 }
+static void gen_problem(prob *P, vrng *R, int algo, int n, int p, int ny, int nlv){ gen_problem_ex(P, R, algo, n, p, ny, nlv, -1, 0, -1, 0); }
 static void free_problem(prob *P){ DelMatrix(&P->x); DelMatrix(&P->y); }
 
+static void emit_crash(int rc, prob *P, cvcfg *C){
+  VRT_EMIT("{\"e\":\"Crash\",\"rc\":%d,\"scheme\":\"%s\",\"algo\":\"%s\",\"n\":%d,\"p\":%d,\"ny\":%d,\"nlv\":%d,\"groups\":%d,\"iters\":%d,\"nth\":%d}", rc, SNAME[C->scheme], ANAME[P->algo], P->n, P->p, P->ny, P->nlv, C->groups, C->iters, C->nth);
+}
 static void run_block(prob *P, cvcfg *C, vrng *R){
   VRT_EMIT("{\"e\":\"Reset\"}");
-  childarg A = {P, C, R};
+  copts O; memset(&O, 0, sizeof(O)); O.id = -1; O.nproc = 1;
+  childarg A = {P, C, R, &O};
   int rc = vrt_run_child(child_cv, &A, 120);
-  if(rc != 0) VRT_EMIT("{\"e\":\"Crash\",\"rc\":%d,\"scheme\":\"%s\",\"algo\":\"%s\",\"n\":%d,\"p\":%d,\"ny\":%d,\"nlv\":%d,\"groups\":%d,\"iters\":%d,\"nth\":%d}", rc, SNAME[C->scheme], ANAME[P->algo], P->n, P->p, P->ny, P->nlv, C->groups, C->iters, C->nth);
+  if(rc != 0) emit_crash(rc, P, C);
+}
+
+/* ---------------- cases mode: TLC-generated chains ---------------- */
+typedef struct { int id, chain, scheme, algo, n, p, ny, nlv, xs, ys, k, groups, iters, nth, dcls, sens, nproc, dseed, nlab; int lab[MAXN]; } ccase;
+typedef struct { ccase *cs; int m; long seed; } chainarg;
+static void case_setup(ccase *c, long seed, prob *P, cvcfg *C, vrng *R){
+  R->s = ((uint64_t)seed * 0x9E3779B97F4A7C15ULL) ^ ((uint64_t)c->dseed * 0xD1B54A32D192ED03ULL + 777);
+  gen_problem_ex(P, R, c->algo, c->n, c->p, c->ny, c->nlv, c->xs, c->ys, c->k, c->dcls);
+  memset(C, 0, sizeof(*C)); C->scheme = c->scheme; C->groups = c->groups; C->iters = c->iters; C->nth = c->nth;
+  if(c->scheme == 2){ C->has_lab = 1; for(int i = 0; i < c->nlab && i < MAXN; i++) C->lab[i] = c->lab[i]; }
+}
+static int child_chain(void *a_){
+  chainarg *A = (chainarg*)a_;
+  matrix *pred, *res; initMatrix(&pred); initMatrix(&res);
+  for(int k = 0; k < A->m; k++){
+    prob P; cvcfg C; vrng R; case_setup(&A->cs[k], A->seed, &P, &C, &R);
+    copts O; memset(&O, 0, sizeof(O)); O.id = A->cs[k].id; O.hist = k; O.reuse = k > 0; O.sensall = A->cs[k].sens; O.nproc = A->cs[k].nproc;
+    if(A->m > 1){ O.pred = pred; O.res = res; }
+    VRT_EMIT("{\"e\":\"Reset\"}");
+    do_case(&P, &C, &R, &O);
+    free_problem(&P);
+    if(O.lost){ initMatrix(&pred); initMatrix(&res); }    /* the library freed the caller's objects: go on with new ones */
+  }
+  DelMatrix(&pred); DelMatrix(&res);
+  return 0;
 }
 
 /* ---------------- helpers mode ---------------- */
 static int child_helpers(void *a_){
-  int *a = (int*)a_; int n = a[0], g = a[1]; unsigned int seed = (unsigned int)a[2];
-  libsci_verif_cv = cv_cb; nW = 0;
+  int *a = (int*)a_; int n = a[0], g = a[1]; unsigned int seed = (unsigned int)a[2]; int reuse = a[3];
   matrix *x, *y, *gid; NewMatrix(&x, n, 2); NewMatrix(&y, n, 1); initMatrix(&gid);
+  matrix *sxt, *syt, *sxs, *sys; initMatrix(&sxt); initMatrix(&syt); initMatrix(&sxs); initMatrix(&sys);
+  if(reuse){ /* history (K7): the fold matrix and the split outputs were sized by an earlier use with another (n, groups) */
+    unsigned int s0 = seed + 1000; matrix *x0, *y0; NewMatrix(&x0, n + 3, 2); NewMatrix(&y0, n + 3, 1);
+    for(int i = 0; i < n + 3; i++){ x0->data[i][0] = 500 + i; x0->data[i][1] = 700 + i; y0->data[i][0] = 900 + i; }
+    random_kfold_group_generator(gid, (size_t)(g + 1), (size_t)(n + 3), &s0);
+    kfold_group_train_test_split(x0, y0, gid, 0, sxt, syt, sxs, sys);
+    DelMatrix(&x0); DelMatrix(&y0); }
+  libsci_verif_cv = cv_cb; nW = 0;
   for(int i = 0; i < n; i++){ x->data[i][0] = i; x->data[i][1] = 1000 + i; y->data[i][0] = -i; }
-  VRT_EMIT("{\"e\":\"Run\",\"scheme\":\"helpers\",\"algo\":\"none\",\"n\":%d,\"p\":2,\"ny\":1,\"nlv\":1,\"xs\":0,\"ys\":0,\"groups\":%d,\"nth\":1,\"total\":0,\"scol\":1,\"lab\":[]}", n, g);
+  VRT_EMIT("{\"e\":\"Run\",\"scheme\":\"helpers\",\"algo\":\"none\",\"n\":%d,\"p\":2,\"ny\":1,\"nlv\":1,\"xs\":0,\"ys\":0,\"groups\":%d,\"nth\":1,\"total\":0,\"scol\":1,\"iters\":1,\"k\":0,\"dcls\":0,\"mag\":0,\"sensall\":0,\"hist\":%d,\"reuse\":%d,\"nproc\":1,\"case\":-1,\"lab\":[]}", n, g, reuse, reuse);
   random_kfold_group_generator(gid, g, n, &seed);
   int rows_ok = 1;
   for(int q = 0; q < g; q++){
-    matrix *xt, *yt, *xs, *ys; initMatrix(&xt); initMatrix(&yt); initMatrix(&xs); initMatrix(&ys);
+    matrix *xt, *yt, *xs, *ys;
+    if(reuse){ xt = sxt; yt = syt; xs = sxs; ys = sys; } else { initMatrix(&xt); initMatrix(&yt); initMatrix(&xs); initMatrix(&ys); }
     kfold_group_train_test_split(x, y, gid, q, xt, yt, xs, ys);
     /* the copied rows must be the rows of the logged ids */
     wrec *w = &W[nW - 1];
     if((int)xt->row != w->ntrain[q] || (int)xs->row != w->ntest[q] || yt->row != xt->row || ys->row != xs->row) rows_ok = 0;
     for(int k = 0; rows_ok && k < w->ntrain[q]; k++) if(xt->data[k][0] != w->train[q][k] || xt->data[k][1] != 1000 + w->train[q][k] || yt->data[k][0] != -w->train[q][k]) rows_ok = 0;
     for(int k = 0; rows_ok && k < w->ntest[q]; k++) if(xs->data[k][0] != w->test[q][k] || ys->data[k][0] != -w->test[q][k]) rows_ok = 0;
-    DelMatrix(&xt); DelMatrix(&yt); DelMatrix(&xs); DelMatrix(&ys);
+    if(!reuse){ DelMatrix(&xt); DelMatrix(&yt); DelMatrix(&xs); DelMatrix(&ys); }
   }
+  DelMatrix(&sxt); DelMatrix(&syt); DelMatrix(&sxs); DelMatrix(&sys);
   libsci_verif_cv = NULL;
   for(int i = 0; i < nW; i++) if(W[i].have_groups) emit_groups_and_splits(&W[i]);
   VRT_EMIT("{\"e\":\"Rows\",\"ok\":%d}", rows_ok);
@@ -257,6 +343,12 @@ static int child_tts(void *a_){
   NewMatrix(&x, n, 2); NewMatrix(&y, n, 2); initMatrix(&xt); initMatrix(&yt); initMatrix(&xs); initMatrix(&ys); initUIVector(&ids);
   for(int i = 0; i < n; i++){ x->data[i][0] = i; x->data[i][1] = 1000 + i; y->data[i][0] = -i; y->data[i][1] = 7 * i + 1; }
   double ts = (double)num / (double)den;     /* den is a power of two: the fraction is exact in double */
+  int reuse = a[4];
+  if(reuse){ /* history (K7): outputs sized by an earlier split of another data set (the id vector is the caller's to clear: a new one) */
+    unsigned int s0 = seed + 77; matrix *x0, *y0; uivector *id0; NewMatrix(&x0, n + 5, 2); NewMatrix(&y0, n + 5, 2); initUIVector(&id0);
+    for(int i = 0; i < n + 5; i++){ x0->data[i][0] = 300 + i; x0->data[i][1] = 1; y0->data[i][0] = 2; y0->data[i][1] = 3; }
+    train_test_split(x0, y0, 0.5, xt, yt, xs, ys, id0, &s0);
+    DelMatrix(&x0); DelMatrix(&y0); DelUIVector(&id0); }
   train_test_split(x, y, ts, xt, yt, xs, ys, ids, &seed);
   /* projection: ids as returned, ids read back from the copied rows (column 0), row consistency flag */
   int rows_ok = (yt->row == xt->row && ys->row == xs->row && xt->col == 2 && xs->col == 2 && yt->col == 2 && ys->col == 2 && ids->size == xs->row);
@@ -271,7 +363,7 @@ static int child_tts(void *a_){
   for(size_t i = 0; i < xt->row; i++){ double v = xt->data[i][0]; long id = (v == floor(v) && v >= 0 && v < n) ? (long)v : -2L;
     if(id >= 0 && rows_ok && (xt->data[i][1] != 1000 + id || yt->data[i][0] != -id || yt->data[i][1] != 7 * id + 1)) rows_ok = 0;
     q += snprintf(buf + q, sizeof buf - q, "%s%ld", i ? "," : "", id); }
-  snprintf(buf + q, sizeof buf - q, "],\"rows\":%d}", rows_ok);
+  snprintf(buf + q, sizeof buf - q, "],\"rows\":%d,\"reuse\":%d}", rows_ok, reuse);
   VRT_EMIT("%s", buf);
   DelMatrix(&x); DelMatrix(&y); DelMatrix(&xt); DelMatrix(&yt); DelMatrix(&xs); DelMatrix(&ys); DelUIVector(&ids);
   return 0;
@@ -286,7 +378,7 @@ int main(int argc, char **argv){
     /* ncases = max n; all (n, groups) with n 1..ncases, groups 1..n, a few seeds (arg 5 = first n) */
     int nlo = argc > 5 ? atoi(argv[5]) : 1;
     for(int n = nlo; n <= ncases; n++) for(int g = 1; g <= n; g++) for(int s = 0; s < 2; s++){
-      int a[3] = {n, g, (int)(seed % 100000) + 31 * n + 7 * g + s};
+      int a[4] = {n, g, (int)(seed % 100000) + 31 * n + 7 * g + s, s};
       VRT_EMIT("{\"e\":\"Reset\"}");
       int rc = vrt_run_child(child_helpers, a, 60);
       if(rc != 0) VRT_EMIT("{\"e\":\"Crash\",\"rc\":%d,\"scheme\":\"helpers\",\"algo\":\"none\",\"n\":%d,\"p\":2,\"ny\":1,\"nlv\":1,\"groups\":%d,\"iters\":1,\"nth\":1}", rc, n, g);
@@ -328,12 +420,32 @@ int main(int argc, char **argv){
     /* ncases = max n; every n 2..ncases x test fractions k/8 (k = 0..7: the test part never takes every object, 0 = empty test part), two seeds */
     for(int n = 2; n <= ncases; n++) for(int k = 0; k <= 7; k++) for(int sd = 0; sd < 2; sd++){
       if(ceil((double)k / 8.0 * n) >= n) continue;        /* an empty training part is outside the property's domain */
-      int a[4] = {n, k, 8, (int)(seed % 100000) + 17 * n + 3 * k + sd};
+      int a[5] = {n, k, 8, (int)(seed % 100000) + 17 * n + 3 * k + sd, sd};
       VRT_EMIT("{\"e\":\"Reset\"}");
-      VRT_EMIT("{\"e\":\"Run\",\"scheme\":\"tts\",\"algo\":\"none\",\"n\":%d,\"p\":2,\"ny\":2,\"nlv\":1,\"xs\":0,\"ys\":0,\"groups\":0,\"nth\":1,\"total\":0,\"scol\":1,\"lab\":[]}", n);
+      VRT_EMIT("{\"e\":\"Run\",\"scheme\":\"tts\",\"algo\":\"none\",\"n\":%d,\"p\":2,\"ny\":2,\"nlv\":1,\"xs\":0,\"ys\":0,\"groups\":0,\"nth\":1,\"total\":0,\"scol\":1,\"iters\":1,\"k\":0,\"dcls\":0,\"mag\":0,\"sensall\":0,\"hist\":%d,\"reuse\":%d,\"nproc\":1,\"case\":-1,\"lab\":[]}", n, sd, sd);
       int rc = vrt_run_child(child_tts, a, 60);
       if(rc != 0) VRT_EMIT("{\"e\":\"Crash\",\"rc\":%d,\"scheme\":\"tts\",\"algo\":\"none\",\"n\":%d,\"p\":2,\"ny\":2,\"nlv\":1,\"groups\":%d,\"iters\":1,\"nth\":1}", rc, n, k);
       else VRT_EMIT("{\"e\":\"End\",\"workers\":0,\"shape\":1}");
+    }
+  }
+  else if(!strcmp(mode, "cases")){
+    /* argv[5] = case file; ncases = number of lines to run at most */
+    FILE *f = fopen(argv[5], "r"); if(!f){ perror("cases"); return 2; }
+    static ccase cs[4096]; int m = 0;
+    while(m < 4096 && m < ncases){ ccase *c = &cs[m];
+      if(fscanf(f, "%d %d %d %d %d %d %d %d %d %d %d %d %d %d %d %d %d %d %d", &c->id, &c->chain, &c->scheme, &c->algo, &c->n, &c->p, &c->ny, &c->nlv, &c->xs, &c->ys, &c->k,
+                &c->groups, &c->iters, &c->nth, &c->dcls, &c->sens, &c->nproc, &c->dseed, &c->nlab) != 19) break;
+      if(c->nlab > MAXN || c->n > MAXN - 2 || c->n < 2){ fprintf(stderr, "bad case line %d\n", m); return 2; }
+      for(int i = 0; i < c->nlab; i++) if(fscanf(f, "%d", &c->lab[i]) != 1){ fprintf(stderr, "bad labels in case line %d\n", m); return 2; }
+      m++; }
+    fclose(f);
+    for(int i = 0; i < m; ){
+      int j = i + 1; while(j < m && cs[j].chain == 1) j++;
+      chainarg A = { &cs[i], j - i, seed };
+      int rc = vrt_run_child(child_chain, &A, 240);
+      if(rc != 0){ /* the failing case is the one whose block is open: report the first of the chain (its Run line is in the trace) */
+        prob P; cvcfg C; vrng R2; case_setup(&cs[i], seed, &P, &C, &R2); emit_crash(rc, &P, &C); free_problem(&P); }
+      i = j;
     }
   }
   else if(!strcmp(mode, "labels")){
